@@ -6,6 +6,7 @@ import (
 	"sync"
 	"sync/atomic"
 	"time"
+	"unicode/utf8"
 
 	"github.com/cespare/xxhash/v2"
 	"github.com/ozontech/file.d/xtime"
@@ -164,13 +165,15 @@ func (h *heldMetricsStore[T]) DeleteOldMetrics(holdDuration time.Duration, delet
 }
 
 func (h *heldMetricsStore[T]) truncateLabels(lvs []string) {
-	if h.metricMaxLabelValueLength == 0 {
-		return
-	}
-
 	for i, label := range lvs {
-		if len(label) > h.metricMaxLabelValueLength {
-			lvs[i] = label[:h.metricMaxLabelValueLength]
+		if h.metricMaxLabelValueLength != 0 && len(label) > h.metricMaxLabelValueLength {
+			label = label[:h.metricMaxLabelValueLength]
+			lvs[i] = label
+		}
+		// label values come from event fields: prometheus panics on a value
+		// that is not valid UTF-8 (raw bytes in the event or a rune cut in half above)
+		if !utf8.ValidString(label) {
+			lvs[i] = strings.ToValidUTF8(label, string(utf8.RuneError))
 		}
 	}
 }
